@@ -129,7 +129,7 @@ def sc_step(V, natoms=1, others="zero", per_coord_delta=False, power=0.25, symbo
 
         fb.get_zeta = gz
     else:
-        rng = shims.ScriptedRNG(V.w.get("draws", []))
+        rng = shims.ScriptedRNG(V.w)
     fb._rng = rng
     pos0 = np.array(atoms.get_positions(), dtype=object if V.mode == "sym" else float)
     try:
